@@ -1188,6 +1188,24 @@ fn run_markers(ex: &mut Executor, spec: &ExecSpec, markers: &[u64], label: &str)
     }
     let errs = oracle::error_msgs(&r.stderr);
     let mut want: Vec<u64> = markers.to_vec();
+    // RDHs of the input that the sanity model rejects (a wrong header size, the priority bit, reserved bits:
+    // fields that change nothing about the packet) are reported at the RDH; the words of that packet stay
+    // where they are
+    let mut rdh_faults: Vec<u64> = Vec::new();
+    {
+        let w = itsgen::walker::walk(&spec.input);
+        let mut first_version: std::collections::BTreeMap<u8, u8> = Default::default();
+        for p in &w.pkts {
+            let fv = *first_version.entry(p.rdh.link_id).or_insert(p.rdh.version);
+            if itsgen::models::rdh_sanity_fails(&p.rdh, fv, true) {
+                rdh_faults.push(p.off as u64);
+            }
+        }
+    }
+    if !rdh_faults.is_empty() {
+        ex.fault("rdh_sanity_fault_on_a_packet_with_planted_words");
+    }
+    want.extend(rdh_faults.iter().copied());
     want.sort_unstable();
     want.dedup();
     let mut got: Vec<u64> = errs.iter().filter_map(|e| e.offset).collect();
@@ -1216,7 +1234,18 @@ fn run_markers(ex: &mut Executor, spec: &ExecSpec, markers: &[u64], label: &str)
         }
     }
     // each marker carries the unrecognised-ID / data-word-ID family
-    for o in &want {
+    for o in &rdh_faults {
+        let codes: Vec<&String> = errs.iter().filter(|e| e.offset == Some(*o)).flat_map(|e| e.codes.iter()).collect();
+        if !codes.iter().any(|c| c.as_str() == "E10") {
+            out.fail = Some(Fail::new(
+                "word-cutting",
+                "rdh-fault-code",
+                tagm(format!("RDH at {o:#X} fails the sanity model; reported with codes {codes:?}, expected E10")),
+            ));
+            return out;
+        }
+    }
+    for o in markers {
         let codes: Vec<&String> = errs.iter().filter(|e| e.offset == Some(*o)).flat_map(|e| e.codes.iter()).collect();
         if !codes.iter().any(|c| c.as_str() == "E991" || c.as_str() == "E70") {
             out.fail = Some(Fail::new(
